@@ -204,7 +204,7 @@ func runMulti(sc mScenario) mResult {
 		r.calls = make([]mCallRes, n)
 		start := time.Now()
 		now := func() int64 { return int64(time.Since(start)) }
-		conn := newScriptConn(now)
+		conn := cli_newScriptConn(now)
 		var c4 *nclient4.Client
 		var c6 *nclient6.Client
 		cl := newClient(sc.v6, conn, time.Duration(sc.T), sc.n, sc.cap)
